@@ -17,6 +17,8 @@ use grep_regex::RegexMatcher;
 use printer_common::*;
 use rgverif_harness::*;
 use serde_json::Value;
+use std::ffi::OsStr;
+use std::os::unix::ffi::OsStrExt;
 use std::panic::{catch_unwind, AssertUnwindSafe};
 
 const PANIC: &str = "multiline-lookahead-cut-match-beyond-block";
@@ -97,12 +99,12 @@ fn lib_std(o: &Opts, matcher: &RegexMatcher) -> Result<StdRun, String> {
     let mut printer = build_standard(o);
     let mut run = StdRun { outs: vec![], traces: vec![], stats: vec![], ml_eff };
     for (i, input) in o.files.iter().enumerate() {
-        let path = path_of(i);
+        let path = o.path_bytes(i);
         let mut trace = Trace::default();
         let before = printer.get_mut().get_ref().len();
         let stats;
         {
-            let mut sink = printer.sink_with_path(matcher, &path);
+            let mut sink = printer.sink_with_path(matcher, OsStr::from_bytes(&path));
             run_search(o, &mut searcher, matcher, input, &mut sink, &mut trace)?;
             stats = sink.stats().map(|s| stats_str(s, None));
         }
@@ -163,13 +165,14 @@ fn check_std_direct(
     o: &Opts,
     matcher: &RegexMatcher,
     ml_eff: bool,
-    path: &str,
+    path: &[u8],
     input: &[u8],
     trace: &Trace,
     out: &[u8],
     rep: &mut Report,
 ) -> Result<(), (String, String)> {
     let term = o.term_bytes();
+    let tb = o.tb();
     // 1. the events are slices of the file at their offsets, with the right line numbers (searcher's contract)
     let mut expects: Vec<Option<Expect>> = vec![];
     for e in &trace.evs {
@@ -182,7 +185,7 @@ fn check_std_direct(
                     return Err(("".into(), format!("matched event at {} is not a slice of the input", off)));
                 }
                 if let Some(ln) = ln {
-                    if *ln != line_number_at(input, off) {
+                    if *ln != line_number_at_t(input, off, tb) {
                         return Err(("".into(), format!("matched event at {} has line number {}", off, ln)));
                     }
                 }
@@ -192,7 +195,7 @@ fn check_std_direct(
                     // very end of an unterminated last line counts)
                     let b = &trace.bufs[*buf];
                     let cut = (*re + 128).min(b.len());
-                    let at_end = cut == *re && bytes.last() != Some(&b'\n');
+                    let at_end = cut == *re && bytes.last() != Some(&tb);
                     let mut ms: Vec<(usize, usize)> = vec![];
                     if granular(o) {
                         let _ = matcher.find_iter_at(&b[..cut], *rs, |m| {
@@ -204,7 +207,7 @@ fn check_std_direct(
                         });
                     }
                     let slow = !ms.is_empty();
-                    let lines = split_lines(bytes);
+                    let lines = split_lines_t(bytes, tb);
                     if slow && o.vimgrep {
                         // --vimgrep: one record per match, on the first line of the block that overlaps it
                         rep.branch("std:vimgrep-multi-line-direct");
@@ -236,7 +239,7 @@ fn check_std_direct(
                 }
                 // "the first match in the line": the printer searches the line on its own (0cdcce3) — the line's
                 // content, terminator stripped, from its first byte; nothing before or after the line is visible
-                let hay = content(bytes, o.crlf);
+                let hay = content_o(o, bytes);
                 // (also under -v: a reported non-matching line normally has no match and hence no column, but the
                 // printer shows one whenever its own search finds a match)
                 let first = matcher.find_at(hay, 0).ok().flatten();
@@ -277,16 +280,16 @@ fn check_std_direct(
                     return Err(("".into(), format!("context event at {} is not a slice of the input", off)));
                 }
                 if let Some(ln) = ln {
-                    if *ln != line_number_at(input, off) {
+                    if *ln != line_number_at_t(input, off, tb) {
                         return Err(("".into(), format!("context event at {} has line number {}", off, ln)));
                     }
                 }
                 // in multi-line mode the printer re-searches the context bytes with their terminator visible
-                let cont = if ml_eff { &bytes[..] } else { content(bytes, o.crlf) };
+                let cont = if ml_eff { &bytes[..] } else { content_o(o, bytes) };
                 let first = if o.invert && granular(o) { matcher.find(cont).ok().flatten() } else { None };
                 if o.vimgrep && o.invert && first.is_some() {
                     let mut ms = vec![];
-                    let unterminated = bytes.last() != Some(&b'\n');
+                    let unterminated = bytes.last() != Some(&tb);
                     let _ = matcher.find_iter(cont, |m| {
                         // a match starting at the end of the reported bytes belongs to the line only when the
                         // line has no terminator
@@ -326,6 +329,7 @@ fn check_std_direct(
     let mut rest: &[u8] = out;
     let has_path = o.with_path && !o.heading;
     let mut first_record = true;
+    let mut leftmost_seen: Option<usize> = None;
     for ex in &expects {
         // separators / heading that precede the first byte of a search
         if first_record && ex.is_some() {
@@ -336,7 +340,7 @@ fn check_std_direct(
                 }
             }
             if o.heading && o.with_path {
-                let h = [path.as_bytes(), if o.null { &b"\0"[..] } else { term }].concat();
+                let h = [path, if o.null { &b"\0"[..] } else { term }].concat();
                 if !rest.starts_with(&h) {
                     return fail(format!("heading missing before {:?}", show(&rest[..rest.len().min(30)])));
                 }
@@ -353,8 +357,11 @@ fn check_std_direct(
             }
             Some(ex) => {
                 first_record = false;
-                let end = match rest.iter().position(|&b| b == b'\n') {
-                    Some(i) => i + 1,
+                // a record ends with the line terminator byte; under --null-data the NUL that ends the path (--null)
+                // comes first
+                let skip = if tb == 0 && has_path && o.null { rest.iter().position(|&b| b == 0).map_or(0, |i| i + 1) } else { 0 };
+                let end = match rest[skip..].iter().position(|&b| b == tb) {
+                    Some(i) => skip + i + 1,
                     None => rest.len(),
                 };
                 let piece = &rest[..end];
@@ -373,7 +380,7 @@ fn check_std_direct(
                 rep.branch("std:record-parsed");
                 let line = &input[ex.line_off..ex.line_off + ex.line_len];
                 let mut want = line.to_vec();
-                if want.last() != Some(&b'\n') {
+                if want.last() != Some(&tb) {
                     want.extend_from_slice(term);
                 }
                 if p.text != want {
@@ -384,22 +391,25 @@ fn check_std_direct(
                         ex.line_off
                     ));
                 }
-                if has_path && p.path.as_deref() != Some(path.as_bytes()) {
+                if has_path && p.path.as_deref() != Some(path) {
                     return fail(format!("path field {:?}", p.path.map(|x| show(&x))));
                 }
-                if has_ln && p.ln != Some(line_number_at(input, ex.line_off)) {
+                if has_ln && p.ln != Some(line_number_at_t(input, ex.line_off, tb)) {
                     return fail(format!(
                         "line number {:?} for the line at offset {} (line {})",
                         p.ln,
                         ex.line_off,
-                        line_number_at(input, ex.line_off)
+                        line_number_at_t(input, ex.line_off, tb)
                     ));
                 }
                 // the engine's "first match" against an independent notion of leftmost: an anchored search at every
                 // earlier position of the line's own content (same syntax options) must find nothing
-                if has_col && !ex.col_unchecked && !ex.is_ctx && !ml_eff && !o.word && !o.xline {
+                // (under --vimgrep only the first record of a line shows the first match)
+                let first_of_line = leftmost_seen != Some(ex.line_off);
+                leftmost_seen = Some(ex.line_off);
+                if has_col && !ex.col_unchecked && !ex.is_ctx && !ml_eff && !o.word && !o.xline && first_of_line {
                     if let (Some(c), Some(are)) = (ex.col_rel, anchored_engine(o)) {
-                        let hay = content(line, o.crlf);
+                        let hay = content_o(o, line);
                         for s2 in 0..c {
                             let inp = regex_automata::Input::new(hay)
                                 .span(s2..hay.len())
@@ -444,7 +454,7 @@ fn check_std_direct(
             }
         }
         if o.heading && o.with_path {
-            let h = [path.as_bytes(), if o.null { &b"\0"[..] } else { term }].concat();
+            let h = [path, if o.null { &b"\0"[..] } else { term }].concat();
             if rest.starts_with(&h) {
                 rest = &rest[h.len()..];
             }
@@ -499,12 +509,12 @@ fn run_std(case: &str, o: &Opts, drv: &mut Driver, rep: &mut Report) {
     let (mut wc, mut wt) = (0usize, 0usize);
     let mut any_records = false;
     for (i, input) in o.files.iter().enumerate() {
-        let path = path_of(i);
+        let path = o.path_bytes(i);
         let (trace, out) = (&run.traces[i], &run.outs[i]);
-        if trace.matched_count() > 0 && trace.matched_count() < split_lines(input).len() {
+        if trace.matched_count() > 0 && trace.matched_count() < split_lines_t(input, o.tb()).len() {
             any_records = true;
         }
-        if input.last().map_or(false, |&b| b != b'\n') {
+        if input.last().map_or(false, |&b| b != o.tb()) {
             rep.branch("std:no-final-terminator");
         }
         if std::str::from_utf8(input).is_err() {
@@ -521,7 +531,7 @@ fn run_std(case: &str, o: &Opts, drv: &mut Driver, rep: &mut Report) {
         let req = format!(
             "c09.standard {} {} (w {} {}) {} {} {}",
             sc_sx(o, ml),
-            std_sx(o, Some(path.as_bytes())),
+            std_sx(o, Some(&path[..])),
             wc,
             wt,
             bufs_sx(trace),
@@ -685,9 +695,16 @@ fn msg_canon(v: &Value) -> String {
 }
 
 /// The JSON half of the property, directly against the file bytes.
-fn check_json_direct(o: &Opts, input: &[u8], msgs: &[Value], drv: &mut Driver, rep: &mut Report) -> Result<(), String> {
+fn check_json_direct(o: &Opts, path: &[u8], input: &[u8], msgs: &[Value], drv: &mut Driver, rep: &mut Report) -> Result<(), String> {
     if msgs.is_empty() {
         return Ok(());
+    }
+    // the path of begin/end decodes to the file's path; text exactly when it is valid UTF-8
+    for m in [&msgs[0], &msgs[msgs.len() - 1]] {
+        let (is_text, p) = data_decode(&m["data"]["path"]).ok_or("path does not decode")?;
+        if p != path || is_text != std::str::from_utf8(path).is_ok() {
+            return Err(format!("path {:?} reported as {:?} (text: {})", show(path), show(&p), is_text));
+        }
     }
     if msgs[0]["type"] != "begin" {
         return Err("first message is not begin".into());
@@ -726,7 +743,7 @@ fn check_json_direct(o: &Opts, input: &[u8], msgs: &[Value], drv: &mut Driver, r
         }
         last_end = off + lines.len();
         if let Some(ln) = d["line_number"].as_u64() {
-            if ln != line_number_at(input, off) {
+            if ln != line_number_at_t(input, off, o.tb()) {
                 return Err(format!("line_number {} at offset {}", ln, off));
             }
         }
@@ -770,11 +787,11 @@ fn run_json(case: &str, o: &Opts, drv: &mut Driver, rep: &mut Report) {
     rep.branch(if ml { "json:multi-line" } else { "json:single-line" });
     let mut nontrivial = false;
     for (i, input) in o.files.iter().enumerate() {
-        let path = path_of(i);
+        let path = o.path_bytes(i);
         let mut printer = JSONBuilder::new().max_matches(o.max).build(vec![]);
         let mut trace = Trace::default();
         let res = catch_unwind(AssertUnwindSafe(|| {
-            let mut sink = printer.sink_with_path(&matcher, &path);
+            let mut sink = printer.sink_with_path(&matcher, OsStr::from_bytes(&path));
             run_search(o, &mut searcher, &matcher, input, &mut sink, &mut trace)
         }));
         let panicked = res.is_err();
@@ -802,6 +819,17 @@ fn run_json(case: &str, o: &Opts, drv: &mut Driver, rep: &mut Report) {
         if msgs.len() > 2 {
             nontrivial = true;
         }
+        // `bytes_printed` of the end message (not part of the model's Stats): the bytes of this search's earlier lines
+        if !panicked {
+            if let Some(end) = msgs.last().filter(|m| m["type"] == "end") {
+                let before: usize = out.split(|&b| b == b'\n').filter(|l| !l.is_empty()).map(|l| l.len() + 1).sum::<usize>()
+                    - out.split(|&b| b == b'\n').filter(|l| !l.is_empty()).last().map_or(0, |l| l.len() + 1);
+                if end["data"]["stats"]["bytes_printed"].as_u64() != Some(before as u64) {
+                    viol(rep, "impl_vs_spec", "", "JSON end message: bytes_printed = bytes of begin .. last match/context line", case, format!("file {}: bytes_printed {:?}, the earlier messages have {} bytes", i, end["data"]["stats"]["bytes_printed"], before));
+                }
+                rep.branch("json:bytes-printed");
+            }
+        }
         // ---- model. When the real sink panicked the event that caused it was not recorded by the tee (the tee
         // records after the inner call); re-create it is not possible, so the model is asked about the prefix
         // and must agree on it, and the panic itself is tied separately below.
@@ -816,7 +844,7 @@ fn run_json(case: &str, o: &Opts, drv: &mut Driver, rep: &mut Report) {
             "c09.json {} (jc (max {}) (abe 0) (path {})) {} {} {}",
             sc_sx(o, ml),
             o.max.map_or("~".to_string(), |m| m.to_string()),
-            hex(path.as_bytes()),
+            hex(&path),
             bufs_sx(&trace),
             evs_sx(&trace, &tables),
             trace.byte_count.unwrap_or(0)
@@ -856,7 +884,7 @@ fn run_json(case: &str, o: &Opts, drv: &mut Driver, rep: &mut Report) {
         }
         canon.clear();
         // ---- the property directly
-        if let Err(d) = check_json_direct(o, input, &msgs, drv, rep) {
+        if let Err(d) = check_json_direct(o, &path, input, &msgs, drv, rep) {
             viol(
                 rep,
                 "impl_vs_spec",
@@ -965,6 +993,11 @@ fn rg_args(o: &Opts, json: bool) -> Vec<String> {
         a.pop();
         a.push("--mmap".into());
     }
+    // half of the cases with the default `-E auto`: no generated input starts with a byte order mark, so nothing is
+    // transcoded (transcoding itself is C17)
+    if fnv(o.pat.as_bytes()) % 2 == 1 {
+        a.retain(|x| x != "-Enone");
+    }
     let mut f = |on: bool, s: &str| {
         if on {
             a.push(s.to_string())
@@ -974,6 +1007,8 @@ fn rg_args(o: &Opts, json: bool) -> Vec<String> {
     f(o.word && !o.xline, "-w");
     f(o.xline, "-x");
     f(o.crlf, "--crlf");
+    f(o.nulldata, "--null-data");
+    f(o.text, "-a");
     f(o.multi, "-U");
     f(o.dotall, "--multiline-dotall");
     f(o.invert, "-v");
@@ -1039,16 +1074,19 @@ fn run_cli(case: &str, o: &Opts, args: &Args, json: bool, rep: &mut Report) {
     let dir = args.scratch.join("c09");
     let _ = std::fs::remove_dir_all(&dir);
     for (i, input) in o.files.iter().enumerate() {
-        let p = dir.join(path_of(i));
+        let p = dir.join(OsStr::from_bytes(&o.path_bytes(i)));
         std::fs::create_dir_all(p.parent().unwrap()).unwrap();
         std::fs::write(&p, input).unwrap();
     }
     let mut cmd = std::process::Command::new(rg);
     cmd.current_dir(&dir).args(rg_args(o, json));
-    let mut names: Vec<String> = (0..o.files.len()).map(path_of).collect();
+    let mut names: Vec<Vec<u8>> = (0..o.files.len()).map(|i| o.path_bytes(i)).collect();
     names.sort();
-    cmd.args(&names);
-    let outp = match run_with_timeout(&mut cmd, &args.scratch.join("c09-out"), 20) {
+    cmd.args(names.iter().map(|n| OsStr::from_bytes(n)));
+    // (the debug build of rg is slow on the > 64 KiB lines of the `long` stream: more time, and running out of it
+    // there is not a finding)
+    let long = o.files.iter().any(|f| f.len() > 60_000);
+    let outp = match run_with_timeout(&mut cmd, &args.scratch.join("c09-out"), if long { 90 } else { 20 }) {
         Some(o) => o,
         None => {
             rep.notes.push("cannot run rg".to_string());
@@ -1058,11 +1096,15 @@ fn run_cli(case: &str, o: &Opts, args: &Args, json: bool, rep: &mut Report) {
     let stderr = String::from_utf8_lossy(&outp.stderr).to_string();
     // library run in the same file order (sorted by path)
     let mut order: Vec<usize> = (0..o.files.len()).collect();
-    order.sort_by_key(|&i| path_of(i));
+    order.sort_by_key(|&i| o.path_bytes(i));
     let mut o2 = o.clone();
     // the binary's single-threaded standard printer owns the context separator as search separator
     o2.files = order.iter().map(|&i| o.files[i].clone()).collect();
     rep.branch(if json { "cli:json" } else { "cli:standard" });
+    if long && outp.timed_out && !stderr.contains("panicked") {
+        rep.branch("cli:long-timeout");
+        return;
+    }
     if stderr.contains("panicked") || outp.timed_out {
         rep.branch("cli:panic");
         viol(
@@ -1079,6 +1121,7 @@ fn run_cli(case: &str, o: &Opts, args: &Args, json: bool, rep: &mut Report) {
         // per file: begin (match|context)* end, then one summary; decoded against the files
         let mut cur: Vec<Value> = vec![];
         let mut idx = 0usize;
+        let (mut cur_bytes, mut all_bytes) = (0u64, 0u64);
         for l in outp.stdout.split(|&b| b == b'\n').filter(|l| !l.is_empty()) {
             let v: Value = match serde_json::from_slice(l) {
                 Ok(v) => v,
@@ -1089,22 +1132,39 @@ fn run_cli(case: &str, o: &Opts, args: &Args, json: bool, rep: &mut Report) {
             };
             let ty = v["type"].as_str().unwrap_or("?").to_string();
             if ty == "summary" {
+                // the totals' bytes_printed is the sum over the files
+                if v["data"]["stats"]["bytes_printed"].as_u64() != Some(all_bytes) {
+                    viol(rep, "impl_vs_spec", "", "rg --json summary: bytes_printed = sum over the files", case, format!("summary says {:?}, the files' messages have {} bytes", v["data"]["stats"]["bytes_printed"], all_bytes));
+                }
                 continue;
+            }
+            if ty == "end" {
+                if v["data"]["stats"]["bytes_printed"].as_u64() != Some(cur_bytes) {
+                    viol(rep, "impl_vs_spec", "", "rg --json end message: bytes_printed = bytes of begin .. last match/context line", case, format!("end says {:?}, the earlier messages have {} bytes", v["data"]["stats"]["bytes_printed"], cur_bytes));
+                }
+                all_bytes += cur_bytes;
+                cur_bytes = 0;
+                rep.branch("cli:json-bytes-printed");
+            } else {
+                cur_bytes += l.len() as u64 + 1;
             }
             cur.push(v);
             if ty == "end" {
                 // which file?
-                let p = cur[0]["data"]["path"]["text"].as_str().unwrap_or("").to_string();
+                let (p_text, p) = data_decode(&cur[0]["data"]["path"]).unwrap_or((true, vec![]));
+                if p_text != std::str::from_utf8(&p).is_ok() || data_canon(&cur[0]["data"]["path"]) != data_canon(&cur[cur.len() - 1]["data"]["path"]) {
+                    viol(rep, "impl_vs_spec", "", "rg --json path: text iff valid UTF-8, same in begin and end", case, format!("path {:?}", show(&p)));
+                }
                 let fi = names.iter().position(|n| *n == p);
                 match fi {
                     Some(fi) if fi >= idx => {
                         idx = fi;
                         let input = &o2.files[fi];
                         if let Err(d) = check_json_cli(o, input, &cur) {
-                            viol(rep, "impl_vs_spec", "", "rg --json messages vs the file bytes", case, format!("file {}: {}", p, d));
+                            viol(rep, "impl_vs_spec", "", "rg --json messages vs the file bytes", case, format!("file {}: {}", show(&p), d));
                         }
                     }
-                    _ => viol(rep, "impl_vs_spec", "", "rg --json begin/end per file in order", case, format!("unexpected path {:?}", p)),
+                    _ => viol(rep, "impl_vs_spec", "", "rg --json begin/end per file in order", case, format!("unexpected path {:?}", show(&p))),
                 }
                 cur.clear();
             }
@@ -1113,6 +1173,29 @@ fn run_cli(case: &str, o: &Opts, args: &Args, json: bool, rep: &mut Report) {
             viol(rep, "impl_vs_spec", "", "rg --json: every begin has its end", case, "dangling messages".into());
         }
         return;
+    }
+    // direct, without any reader: `--passthru` with no coordinates prints every line of every file as it is (a missing
+    // final terminator completed)
+    if o.passthru && !o.lineno && !o.with_path && !o.heading && !o.column && !o.vimgrep && !o.only && !o.boff && o.max.is_none() {
+        let mut want = vec![];
+        for f in &o2.files {
+            want.extend_from_slice(f);
+            if !f.is_empty() && f.last() != Some(&o.tb()) {
+                want.extend_from_slice(o.term_bytes());
+            }
+        }
+        rep.branch("cli:passthru-identity");
+        if want != outp.stdout {
+            let k = want.iter().zip(&outp.stdout).take_while(|(a, b)| a == b).count();
+            viol(
+                rep,
+                "impl_vs_spec",
+                "",
+                "rg --passthru without coordinates prints the files themselves",
+                case,
+                format!("output ({} bytes) differs from the input ({} bytes) at byte {}: {:?} vs {:?}", outp.stdout.len(), want.len(), k, show(&outp.stdout[k.min(outp.stdout.len())..(k + 20).min(outp.stdout.len())]), show(&want[k.min(want.len())..(k + 20).min(want.len())])),
+            );
+        }
     }
     // standard: compare with the library printer configured the way HiArgs does it
     let mut o3 = o2.clone();
@@ -1138,7 +1221,7 @@ fn run_cli(case: &str, o: &Opts, args: &Args, json: bool, rep: &mut Report) {
         }
         let mut printer = b.build_no_color(vec![]);
         for (k, input) in o3.files.iter().enumerate() {
-            let mut sink = printer.sink_with_path(&matcher, &names[k]);
+            let mut sink = printer.sink_with_path(&matcher, OsStr::from_bytes(&names[k]));
             let r = if o3.reader { searcher.search_reader(&matcher, &input[..], &mut sink) } else { searcher.search_slice(&matcher, input, &mut sink) };
             if r.is_err() {
                 rep.branch("cli:lib-search-error");
@@ -1180,7 +1263,7 @@ fn check_json_cli(o: &Opts, input: &[u8], msgs: &[Value]) -> Result<(), String> 
             return Err(format!("lines {:?} are not the input bytes at offset {}", show(&lines), off));
         }
         if let Some(ln) = d["line_number"].as_u64() {
-            if ln != line_number_at(input, off) {
+            if ln != line_number_at_t(input, off, o.tb()) {
                 return Err(format!("line_number {} at offset {}", ln, off));
             }
         }
@@ -1197,6 +1280,402 @@ fn check_json_cli(o: &Opts, input: &[u8], msgs: &[Value]) -> Result<(), String> 
         return Err("with --passthru the concatenation of all reported lines is not the input".into());
     }
     Ok(())
+}
+
+// ---------------------------------------------------------------- rel: printer options outside the model
+//
+// Options the Lean model does not cover but the property quantifies over (colours, hyperlinks, field / context /
+// path separators) are held to the plain output — which `std`/`cli` tie to the model and to the file bytes — by
+// relations between runs of the `rg` binary on the same files:
+//   sep   : output with unique separators, re-rendered with the default ones            == plain output
+//   color : --color=always output with SGR / OSC-8 sequences stripped                  == --color=never output
+//   psep  : --path-separator X only replaces '/' in the printed path
+// (--trim and -M/--max-columns are excluded by the property text itself: "trimming, column limits".)
+
+const SEP_M: &[u8] = b"\x01M\x01";
+const SEP_C: &[u8] = b"\x01C\x01";
+const SEP_X: &[u8] = b"\x01--\x01";
+
+#[derive(Clone, Debug, Default)]
+struct Extras {
+    /// 0 = never, 1 = always (default colours), 2 = always with every colour spec `none`
+    color: u8,
+    hyper: bool,
+    sep: bool,
+    psep: Option<u8>,
+    noctxsep: bool,
+}
+
+impl Extras {
+    fn parse(x: &str) -> Option<Extras> {
+        let mut e = Extras::default();
+        for t in x.split(',') {
+            match t {
+                "-" | "" => {}
+                "color" => e.color = 1,
+                "color0" => e.color = 2,
+                "hyper" => e.hyper = true,
+                "sep" => e.sep = true,
+                "noctxsep" => e.noctxsep = true,
+                _ => {
+                    if let Some(n) = t.strip_prefix("psep") {
+                        e.psep = Some(u8::from_str_radix(n, 16).ok()?);
+                    } else {
+                        return None;
+                    }
+                }
+            }
+        }
+        Some(e)
+    }
+    fn show(&self) -> String {
+        let mut v: Vec<String> = vec![];
+        match self.color {
+            1 => v.push("color".into()),
+            2 => v.push("color0".into()),
+            _ => {}
+        }
+        if self.hyper {
+            v.push("hyper".into());
+        }
+        if self.sep {
+            v.push("sep".into());
+        }
+        if self.noctxsep {
+            v.push("noctxsep".into());
+        }
+        if let Some(b) = self.psep {
+            v.push(format!("psep{:02x}", b));
+        }
+        if v.is_empty() {
+            "-".into()
+        } else {
+            v.join(",")
+        }
+    }
+}
+
+/// remove SGR sequences (`ESC [ ... m`) and OSC-8 hyperlink brackets (`ESC ] 8 ; ; URL ESC \`)
+fn strip_escapes(b: &[u8]) -> Vec<u8> {
+    let mut out = Vec::with_capacity(b.len());
+    let mut i = 0;
+    while i < b.len() {
+        if b[i] == 0x1b && b.get(i + 1) == Some(&b'[') {
+            let mut j = i + 2;
+            while j < b.len() && (b[j].is_ascii_digit() || b[j] == b';') {
+                j += 1;
+            }
+            if b.get(j) == Some(&b'm') {
+                i = j + 1;
+                continue;
+            }
+        }
+        if b[i] == 0x1b && b[i + 1..].starts_with(b"]8;") {
+            if let Some(k) = b[i..].windows(2).position(|w| w == b"\x1b\\") {
+                i += k + 2;
+                continue;
+            }
+        }
+        out.push(b[i]);
+        i += 1;
+    }
+    out
+}
+
+#[derive(Clone, Debug, PartialEq)]
+enum Item {
+    Break,
+    Rec { path: Option<Vec<u8>>, fields: Vec<(Vec<u8>, bool)>, text: Vec<u8> },
+}
+
+/// Read an output printed with the unique separators back into records. `pterm` is what follows a path
+/// (`\0` under --null, otherwise the field separator).
+fn parse_unique(out: &[u8], names: &[Vec<u8>], with_path: bool, null: bool) -> Result<Vec<Item>, String> {
+    let mut items = vec![];
+    let mut rest = out;
+    while !rest.is_empty() {
+        let end = rest.iter().position(|&b| b == b'\n').map_or(rest.len(), |i| i + 1);
+        let mut l = &rest[..end];
+        rest = &rest[end..];
+        if l.strip_suffix(b"\n") == Some(SEP_X) || l.strip_suffix(b"\r\n") == Some(SEP_X) {
+            items.push(Item::Break);
+            continue;
+        }
+        let mut path = None;
+        let mut fields = vec![];
+        if with_path {
+            let n = names.iter().filter(|n| l.starts_with(n)).max_by_key(|n| n.len()).ok_or(format!("no path at {:?}", show(l)))?;
+            path = Some(n.clone());
+            l = &l[n.len()..];
+            if null {
+                l = l.strip_prefix(b"\0").ok_or("no NUL after the path")?;
+            } else if let Some(r) = l.strip_prefix(SEP_M) {
+                l = r;
+                fields.push((vec![], false));
+            } else if let Some(r) = l.strip_prefix(SEP_C) {
+                l = r;
+                fields.push((vec![], true));
+            } else {
+                return Err(format!("no separator after the path at {:?}", show(l)));
+            }
+        }
+        loop {
+            let d = l.iter().take_while(|b| b.is_ascii_digit()).count();
+            if d == 0 {
+                break;
+            }
+            if let Some(r) = l[d..].strip_prefix(SEP_M) {
+                fields.push((l[..d].to_vec(), false));
+                l = r;
+            } else if let Some(r) = l[d..].strip_prefix(SEP_C) {
+                fields.push((l[..d].to_vec(), true));
+                l = r;
+            } else {
+                break;
+            }
+        }
+        if l.windows(1).any(|w| w == b"\x01") {
+            return Err(format!("separator bytes inside the text {:?}", show(l)));
+        }
+        items.push(Item::Rec { path, fields, text: l.to_vec() });
+    }
+    Ok(items)
+}
+
+fn render(items: &[Item], null: bool, sep_m: &[u8], sep_c: &[u8], sep_x: Option<&[u8]>, term: &[u8]) -> Vec<u8> {
+    let mut out = vec![];
+    for it in items {
+        match it {
+            Item::Break => {
+                if let Some(x) = sep_x {
+                    out.extend_from_slice(x);
+                    out.extend_from_slice(term);
+                }
+            }
+            Item::Rec { path, fields, text } => {
+                let mut fs = fields.iter();
+                if let Some(p) = path {
+                    out.extend_from_slice(p);
+                    if null {
+                        out.push(0);
+                    } else if let Some((_, c)) = fs.next() {
+                        out.extend_from_slice(if *c { sep_c } else { sep_m });
+                    }
+                }
+                for (d, c) in fs {
+                    out.extend_from_slice(d);
+                    out.extend_from_slice(if *c { sep_c } else { sep_m });
+                }
+                out.extend_from_slice(text);
+            }
+        }
+    }
+    out
+}
+
+fn run_rel(case: &str, o: &Opts, e: &Extras, args: &Args, rep: &mut Report) {
+    rep.eval();
+    let rg = match &args.rg {
+        Some(p) => p.clone(),
+        None => {
+            rep.branch("rel:no-rg");
+            return;
+        }
+    };
+    let matcher = match o.matcher() {
+        Ok(m) => m,
+        Err(_) => {
+            rep.branch("pattern-rejected");
+            return;
+        }
+    };
+    rep.branch(if o.searcher().multi_line_with_matcher(&matcher) { "rel:multi-line" } else { "rel:single-line" });
+    let dir = args.scratch.join("c09rel");
+    let _ = std::fs::remove_dir_all(&dir);
+    for (i, input) in o.files.iter().enumerate() {
+        let p = dir.join(OsStr::from_bytes(&o.path_bytes(i)));
+        std::fs::create_dir_all(p.parent().unwrap()).unwrap();
+        std::fs::write(&p, input).unwrap();
+    }
+    let mut names: Vec<Vec<u8>> = (0..o.files.len()).map(|i| o.path_bytes(i)).collect();
+    names.sort();
+    let scratch = args.scratch.join("c09rel-out");
+    let mut failed = false;
+    let mut run = |o: &Opts, color: &str, extra: &[String], rep: &mut Report| -> Option<Vec<u8>> {
+        let mut a = rg_args(o, false);
+        for x in a.iter_mut() {
+            if x == "--color=never" {
+                *x = color.to_string();
+            }
+        }
+        // options go before `-e PATTERN`
+        let k = a.len() - 2;
+        for (i, x) in extra.iter().enumerate() {
+            a.insert(k + i, x.clone());
+        }
+        let mut cmd = std::process::Command::new(&rg);
+        cmd.current_dir(&dir).args(&a).args(names.iter().map(|n| OsStr::from_bytes(n)));
+        let long = o.files.iter().any(|f| f.len() > 60_000);
+        let out = run_with_timeout(&mut cmd, &scratch, if long { 90 } else { 20 })?;
+        let stderr = String::from_utf8_lossy(&out.stderr).to_string();
+        if long && out.timed_out && !stderr.contains("panicked") {
+            rep.branch("rel:long-timeout");
+            return None;
+        }
+        if stderr.contains("panicked") || out.timed_out {
+            if !failed {
+                viol(rep, "impl_vs_spec", "", "rg must not panic", case, format!("rg {:?} panicked: {}", a, stderr.lines().find(|l| l.contains("panicked")).unwrap_or("timeout")));
+            }
+            failed = true;
+            return None;
+        }
+        if !out.stderr.is_empty() {
+            return None;
+        }
+        Some(out.stdout)
+    };
+    let tie = "relations between rg runs: printer options outside the model vs the plain output (property C09)";
+    let fail = |rep: &mut Report, class: &str, d: String| viol(rep, "impl_vs_spec", class, tie, case, d);
+    let uniq: Vec<String> = vec![
+        format!("--field-match-separator={}", String::from_utf8_lossy(SEP_M)),
+        format!("--field-context-separator={}", String::from_utf8_lossy(SEP_C)),
+        format!("--context-separator={}", String::from_utf8_lossy(SEP_X)),
+    ];
+    let name_bytes: Vec<Vec<u8>> = names.clone();
+    let term = o.term_bytes();
+
+    // ---- separators: unique separators re-rendered with the default ones == plain
+    // (the re-parse relations read `\n`-terminated records)
+    if (e.sep || e.noctxsep) && !o.nulldata {
+        let mut o1 = o.clone();
+        o1.heading = false;
+        let (a, s) = match (run(&o1, "--color=never", &[], rep), run(&o1, "--color=never", &uniq, rep)) {
+            (Some(a), Some(s)) => (a, s),
+            _ => return,
+        };
+        rep.branch("rel:separators");
+        match parse_unique(&s, &name_bytes, o1.with_path, o1.null) {
+            Err(d) => fail(rep, "", format!("output with unique separators does not read back: {} ({:?})", d, show(&s))),
+            Ok(items) => {
+                let back = render(&items, o1.null, b":", b"-", Some(b"--"), term);
+                if back != a {
+                    fail(rep, "", format!("unique separators re-rendered {:?}, plain output {:?}", show(&back), show(&a)));
+                }
+                if e.noctxsep {
+                    let mut f = uniq.clone();
+                    f.push("--no-context-separator".into());
+                    if let Some(n) = run(&o1, "--color=never", &f, rep) {
+                        rep.branch("rel:no-context-separator");
+                        let want = render(&items, o1.null, SEP_M, SEP_C, None, term);
+                        if n != want {
+                            fail(rep, "", format!("--no-context-separator printed {:?}, expected {:?}", show(&n), show(&want)));
+                        }
+                    }
+                }
+                if items.iter().any(|i| *i == Item::Break) {
+                    rep.nontrivial(case);
+                }
+            }
+        }
+    }
+
+    // ---- colours / hyperlinks: stripped == plain
+    if e.color > 0 || e.hyper {
+        let plain = match run(o, "--color=never", &[], rep) {
+            Some(p) => p,
+            None => return,
+        };
+        let mut f: Vec<String> = vec![];
+        if e.color == 2 {
+            for k in ["path", "line", "column", "match"] {
+                f.push(format!("--colors={}:none", k));
+            }
+        }
+        if e.hyper {
+            f.push("--hyperlink-format=file://{host}{path}#{line}:{column}".into());
+        }
+        let col = match run(o, "--color=always", &f, rep) {
+            Some(c) => c,
+            None => return,
+        };
+        rep.branch(match (e.color, e.hyper) {
+            (2, _) => "rel:color-specs-none",
+            (_, true) => "rel:hyperlinks",
+            _ => "rel:color",
+        });
+        if col != plain {
+            rep.nontrivial(case);
+        }
+        if strip_escapes(&col) != plain {
+            fail(rep, "", format!("with colours rg printed {:?} (escapes stripped), without colours {:?}", show(&strip_escapes(&col)), show(&plain)));
+        }
+    }
+
+    // ---- --path-separator
+    if let Some(x) = e.psep {
+        if o.with_path && !o.nulldata {
+            let mut o1 = o.clone();
+            o1.heading = false;
+            o1.null = true;
+            let mut f = uniq.clone();
+            let u = match run(&o1, "--color=never", &f, rep) {
+                Some(u) => u,
+                None => return,
+            };
+            f.push(format!("--path-separator={}", x as char));
+            let q = match run(&o1, "--color=never", &f, rep) {
+                Some(q) => q,
+                None => return,
+            };
+            rep.branch("rel:path-separator");
+            let swapped: Vec<Vec<u8>> = name_bytes.iter().map(|n| n.iter().map(|&b| if b == b'/' { x } else { b }).collect()).collect();
+            match (parse_unique(&u, &name_bytes, true, true), parse_unique(&q, &swapped, true, true)) {
+                (Ok(pu), Ok(pq)) => {
+                    let want: Vec<Item> = pu
+                        .into_iter()
+                        .map(|i| match i {
+                            Item::Rec { path, fields, text } => {
+                                Item::Rec { path: path.map(|p| p.iter().map(|&b| if b == b'/' { x } else { b }).collect()), fields, text }
+                            }
+                            b => b,
+                        })
+                        .collect();
+                    if want != pq {
+                        fail(rep, "", format!("--path-separator={:?} printed {:?}, plain {:?}", x as char, show(&q), show(&u)));
+                    } else if !pq.is_empty() {
+                        rep.nontrivial(case);
+                    }
+                }
+                (Err(d), _) | (_, Err(d)) => fail(rep, "", format!("output does not read back: {}", d)),
+            }
+        }
+    }
+}
+
+fn gen_extras(rng: &mut Rng) -> Extras {
+    let mut e = Extras::default();
+    match rng.below(6) {
+        0 => e.sep = true,
+        1 => {
+            e.sep = true;
+            e.noctxsep = true
+        }
+        2 => e.psep = Some(*rng.pick(b"\\:|_")),
+        _ => {}
+    }
+    match rng.below(6) {
+        0 | 1 => e.color = 1,
+        2 => e.color = 2,
+        3 => {
+            e.color = 1;
+            e.hyper = true
+        }
+        _ => {}
+    }
+    if e.show() == "-" {
+        e.color = 1;
+    }
+    e
 }
 
 // ---------------------------------------------------------------- generation
@@ -1258,6 +1737,14 @@ fn run_case(case: &str, args: &Args, drv: &mut Driver, rep: &mut Report) {
     let tag = parts.first().copied().unwrap_or("");
     match tag {
         "enc" => run_enc(case, &parts, drv, rep),
+        "rel" => {
+            let x = parts.iter().find_map(|p| p.strip_prefix("x=")).unwrap_or("-");
+            let rest: Vec<&str> = parts[1..].iter().copied().filter(|p| !p.starts_with("x=")).collect();
+            match (Opts::parse(&rest), Extras::parse(x)) {
+                (Some(o), Some(e)) => run_rel(case, &o, &e, args, rep),
+                _ => rep.notes.push(format!("unparsable case: {}", case)),
+            }
+        }
         "std" | "json" | "cli" | "clijson" => match Opts::parse(&parts[1..]) {
             Some(o) => match tag {
                 "std" => run_std(case, &o, drv, rep),
@@ -1278,18 +1765,28 @@ fn main() {
     let mut drv = Driver::spawn(&args.driver);
     let mut rep = Report::new(
         "C09",
-        "std/json: random patterns (pool of anchors, word boundaries, empty-matching, non-ASCII, invalid-UTF-8 classes + \
-         random small regexes; multi-line pool under -U) x 1-3 files of 0-6 short lines (CRLF, invalid UTF-8, non-ASCII, \
-         300-3000 byte lines, missing final terminator; boundary stream: empty file, lone CR, only newlines) x all \
+        "std/json: random patterns (pool of anchors incl. \\A \\z (?-m)^ (?-m)$, word boundaries, empty-matching, non-ASCII, \
+         invalid-UTF-8 classes + random small regexes; multi-line pool under -U; extra pools `pat`: half word boundaries, \
+         ASCII boundaries, inline flags, look-around at block edges) x 1-3 files of 0-6 short lines (CRLF, invalid UTF-8, \
+         non-ASCII, 300-3000 byte lines, missing final terminator; boundary stream: empty file, lone CR, only newlines) x all \
          combinations of -n -b --column --vimgrep -H/-I --heading --null -A/-B/--passthru -v -m --crlf -U, slice and reader \
-         search. cli: the rg binary with the same flags. enc: decimal/UTF-8/base64 through the driver. \
-         Excluded: NUL bytes in inputs (binary detection is C14), \\A/\\z outside the multi-line pool, only-matching records \
-         (outside C09; still compared with the model). Non-trivial: some but not all lines of a file reported (std), \
-         at least one match/context message (json). Distinct by case text.",
+         search. cli: the rg binary with the same flags (-E auto on half of them). enc: decimal/UTF-8/base64 through the \
+         driver. Further streams, every one through std/json/cli/clijson: z = --null-data (NUL ends the lines, \\n is an \
+         ordinary byte); a = NUL bytes in the input with binary detection off (-a); bp = file names that are not valid \
+         UTF-8. long = a line of 66-140 KB (cli, clijson, rel only: the Lean driver is not fed such lines; cli adds the \
+         --passthru identity). rel = relations between rg runs for options outside the model: --color=always (default \
+         specs / all specs none) and --hyperlink-format stripped == plain; unique --field-match-separator / \
+         --field-context-separator / --context-separator re-rendered == plain; --no-context-separator; --path-separator. \
+         Excluded by the property text: --trim, -M/--max-columns, -o records (still compared with the model), replacement \
+         (C19). Binary detection modes quit/convert are C14's; transcoding is C17's. Non-trivial: some but not all lines of \
+         a file reported (std), at least one match/context message (json), escapes / context breaks / paths actually \
+         present (rel). Distinct by case text.",
     );
     for c in corpus_cases(&args) {
         run_case(&c, &args, &mut drv, &mut rep);
     }
+    // probing aid: RGVERIF_STREAM=<tag> runs only the generated cases of one stream
+    let only_stream = std::env::var("RGVERIF_STREAM").ok();
     if args.replay.is_none() {
         let mut rng = Rng::new(args.seed);
         let n = args.cases.unwrap_or(if args.thorough { 40000 } else { 2400 });
@@ -1339,7 +1836,195 @@ fn main() {
             if i < 8 {
                 rep.sample(case.clone());
             }
-            run_case(&case, &args, &mut drv, &mut rep);
+            if only_stream.as_deref().map_or(true, |s| case.starts_with(s)) {
+                run_case(&case, &args, &mut drv, &mut rep);
+            }
+        }
+        // z: --null-data (NUL ends the lines, `\n` is an ordinary byte), every stream
+        let mut rng = Rng::new(args.seed ^ 0x2e70_da7a);
+        for i in 0..n / 8 {
+            let multi = i % 4 == 3;
+            let mut o = gen_opts(&mut rng, multi, i % 7 == 0, false);
+            o.crlf = false;
+            o.nulldata = true;
+            o.files = o.files.iter().map(|f| to_nul_data(&mut rng, f)).collect();
+            let tag = match i % 6 {
+                0 | 1 | 2 => "std",
+                3 => "json",
+                4 => {
+                    o.stats = false;
+                    o.sepsearch = false;
+                    "cli"
+                }
+                _ => "clijson",
+            };
+            let case = o.to_case(tag);
+            if only_stream.as_deref().map_or(true, |s| s == "z") {
+                run_case(&case, &args, &mut drv, &mut rep);
+            }
+        }
+        // o: --only-matching (its records are outside C09's statement; the model comparison, rg == library printer and
+        // the colour relation still apply), with -b, --column, --vimgrep, -U, context
+        let mut rng = Rng::new(args.seed ^ 0x0017_a7c4);
+        for i in 0..n / 12 {
+            let mut o = gen_opts(&mut rng, i % 3 == 2, i % 7 == 0, false);
+            o.only = true;
+            let case = match i % 4 {
+                0 | 1 => o.to_case("std"),
+                2 => {
+                    o.stats = false;
+                    o.sepsearch = false;
+                    o.to_case("cli")
+                }
+                _ => {
+                    o.stats = false;
+                    o.sepsearch = false;
+                    format!("{} x=color", o.to_case("rel"))
+                }
+            };
+            if only_stream.as_deref().map_or(true, |s| s == "o") {
+                run_case(&case, &args, &mut drv, &mut rep);
+            }
+        }
+        // pat: the extra pattern pools
+        let mut rng = Rng::new(args.seed ^ 0x9a77_e125);
+        for i in 0..n / 8 {
+            let multi = i % 2 == 1;
+            let mut o = gen_opts(&mut rng, multi, i % 7 == 0, false);
+            o.pat = rng.pick(if multi { EXTRA_MULTI } else { EXTRA_SINGLE }).to_string();
+            let tag = match i % 6 {
+                0 | 1 | 2 => "std",
+                3 => "json",
+                4 => {
+                    o.stats = false;
+                    o.sepsearch = false;
+                    "cli"
+                }
+                _ => "clijson",
+            };
+            let case = o.to_case(tag);
+            if only_stream.as_deref().map_or(true, |s| s == "pat") {
+                run_case(&case, &args, &mut drv, &mut rep);
+            }
+        }
+        // a: NUL bytes in the input, binary detection off (-a/--text; the library searcher's default)
+        let mut rng = Rng::new(args.seed ^ 0x7e87_0a11);
+        for i in 0..n / 12 {
+            let mut o = gen_opts(&mut rng, i % 4 == 3, i % 7 == 0, false);
+            o.text = true;
+            o.files = o.files.iter().map(|f| with_nuls(&mut rng, f)).collect();
+            let tag = match i % 6 {
+                0 | 1 | 2 => "std",
+                3 => "json",
+                4 => {
+                    o.stats = false;
+                    o.sepsearch = false;
+                    "cli"
+                }
+                _ => "clijson",
+            };
+            let case = o.to_case(tag);
+            if only_stream.as_deref().map_or(true, |s| s == "a") {
+                run_case(&case, &args, &mut drv, &mut rep);
+            }
+        }
+        // bp: file names that are not valid UTF-8 (Standard prints them raw, JSON as base64 `bytes`)
+        let mut rng = Rng::new(args.seed ^ 0x0bad_9a78);
+        for i in 0..n / 12 {
+            let mut o = gen_opts(&mut rng, i % 4 == 3, false, false);
+            o.badpath = true;
+            let tag = match i % 4 {
+                0 => {
+                    o.with_path = true;
+                    "std"
+                }
+                1 => "json",
+                2 => {
+                    o.with_path = true;
+                    o.stats = false;
+                    o.sepsearch = false;
+                    "cli"
+                }
+                _ => "clijson",
+            };
+            let case = o.to_case(tag);
+            if only_stream.as_deref().map_or(true, |s| s == "bp") {
+                run_case(&case, &args, &mut drv, &mut rep);
+            }
+        }
+        // long: a line longer than the searcher's 64 KiB buffer, in the streams that do not go through the Lean
+        // driver (cli = rg vs library printer and the --passthru identity, clijson = decoded against the file
+        // bytes, rel = colours)
+        let mut rng = Rng::new(args.seed ^ 0x1046_11e5);
+        for i in 0..n / 96 {
+            let mut o = gen_opts(&mut rng, i % 4 == 3, false, false);
+            o.stats = false;
+            o.sepsearch = false;
+            // (one record per match would print the long line thousands of times)
+            o.vimgrep = false;
+            let k = rng.below(o.files.len());
+            let chunk = gen_input(&mut rng, false, false);
+            let chunk: Vec<u8> = chunk.into_iter().filter(|&b| b != b'\n' && b != b'\r').collect();
+            let mut long_line = vec![];
+            let target = rng.range(66_000, 140_000);
+            while long_line.len() < target {
+                long_line.extend_from_slice(if chunk.is_empty() { b"ab " } else { &chunk[..] });
+            }
+            let mut f = o.files[k].clone();
+            let at = split_lines(&f).get(rng.below(3)).map_or(f.len(), |l| l.0);
+            let mut ins = long_line;
+            if o.crlf && rng.chance(1, 2) {
+                ins.push(b'\r');
+            }
+            ins.push(b'\n');
+            f.splice(at..at, ins);
+            o.files[k] = f;
+            let case = match i % 4 {
+                0 => {
+                    o.passthru = true;
+                    o.before = 0;
+                    o.after = 0;
+                    o.lineno = false;
+                    o.with_path = false;
+                    o.column = false;
+                    o.vimgrep = false;
+                    o.only = false;
+                    o.boff = false;
+                    o.heading = false;
+                    o.max = None;
+                    o.to_case("cli")
+                }
+                1 => o.to_case("cli"),
+                2 => o.to_case("clijson"),
+                _ => format!("{} x=color", o.to_case("rel")),
+            };
+            if only_stream.as_deref().map_or(true, |s| s == "long") {
+                run_case(&case, &args, &mut drv, &mut rep);
+            }
+        }
+        // rel: printer options outside the model (own generator state, so the streams above keep their cases)
+        let mut rng = Rng::new(args.seed ^ 0x5e1a_7105);
+        for i in 0..n / 6 {
+            let multi = i % 4 == 3;
+            let mut o = gen_opts(&mut rng, multi, i % 7 == 0, false);
+            o.stats = false;
+            o.sepsearch = false;
+            let mut e = gen_extras(&mut rng);
+            if rng.chance(1, 8) {
+                o.badpath = true;
+            }
+            if !o.crlf && rng.chance(1, 8) {
+                o.nulldata = true;
+                o.files = o.files.iter().map(|f| to_nul_data(&mut rng, f)).collect();
+                e.color = e.color.max(1);
+            }
+            let case = format!("{} x={}", o.to_case("rel"), e.show());
+            if i < 3 {
+                rep.sample(case.clone());
+            }
+            if only_stream.as_deref().map_or(true, |s| case.starts_with(s)) {
+                run_case(&case, &args, &mut drv, &mut rep);
+            }
         }
     }
     rep.write(&args);
